@@ -106,9 +106,10 @@ def move_staticmethod_static_scope(source: str, preserve: Collection[str]) -> st
 
     attributes_to_preserve = set()
     for name in preserve:
-        if "." in name:
-            *_, property_name = name.split(".")
-            attributes_to_preserve.add(property_name)
+        # Names collected from preserved files are bare attribute names, while safe mode
+        # passes "Class.method"; either way the method must stay reachable through its class.
+        *_, property_name = name.split(".")
+        attributes_to_preserve.add(property_name)
 
     class_function_names = set()
     class_attribute_accesses = set()
